@@ -90,6 +90,41 @@ pub fn run_c03(ctx: &Ctx) -> (&'static str, &'static str) {
             Ok(if degenerate { "identity argument" } else if ks[d[0]] >= *r() || ks[d[1]] >= *r() { "scalar >= r" } else { "generic" })
         },
     );
+    // the multiples computed by the library itself from raw 256-bit scalars (values >= r and >= 2^255 included)
+    {
+        use pairing_plus::bls12_381::{G1, G2};
+        use pairing_plus::CurveProjective;
+        let big: Vec<BigUint> = vec![BigUint::zero(), BigUint::one(), r() - 1u32, r().clone(), r() + 1u32, alpha::pow2(255) - 1u32, alpha::pow2(255) + 3u32, alpha::pow2(256) - 1u32, (r() << 1) + 5u32];
+        let nb = big.len() as u64;
+        let rad = [nb, nb, 2];
+        ctx.sweep(
+            "pairing.library_multiples",
+            crate::infra::space(&rad),
+            |i| {
+                let d = unrank(i, &rad);
+                json!({"a": hex(&big[d[0]]), "b": hex(&big[d[1]]), "multiplication": (["projective mul_assign", "affine mul"][d[2]])})
+            },
+            |i| {
+                let d = unrank(i, &rad);
+                let (ra, rb) = (frrepr(&big[d[0]]), frrepr(&big[d[1]]));
+                let (p, qq): (G1Affine, G2Affine) = if d[2] == 0 {
+                    let mut p = G1::one();
+                    p.mul_assign(ra);
+                    let mut qq = G2::one();
+                    qq.mul_assign(rb);
+                    (p.into_affine(), qq.into_affine())
+                } else {
+                    (G1Affine::one().mul(ra).into_affine(), G2Affine::one().mul(rb).into_affine())
+                };
+                let got = guard(|| Bls12::pairing(p, qq)).map_err(|m| Fail::new(format!("pairing panicked: {}", m)))?;
+                let want = gt.pow(&((&big[d[0]] % r()) * (&big[d[1]] % r())));
+                if q12_of(&got) != want {
+                    return Err(Fail::new("e([a]g1,[b]g2) != e(g1,g2)^(ab) with the multiples computed by the library from raw 256-bit scalars"));
+                }
+                Ok(if big[d[0]].bits() == 256 || big[d[1]].bits() == 256 { "scalar >= 2^255" } else if big[d[0]] >= *r() || big[d[1]] >= *r() { "scalar >= r" } else { "canonical scalars" })
+            },
+        );
+    }
     // full textbook evaluation on a subset, including points given by coordinates only
     let nfull = ctx.tier.pick(4usize, 64);
     let sel: Vec<(usize, usize)> = (0..nfull).map(|t| ((t * 5 + 1) % ks.len(), (t * 7 + 2) % ks.len())).collect();
@@ -227,6 +262,55 @@ pub fn run_c11(ctx: &Ctx) -> (&'static str, &'static str) {
             },
         );
     }
+    // long lists (internal batching boundaries): lengths around 16, 32, 64 through every entry point, generic and
+    // cancelling patterns, an identity in the middle
+    {
+        let lens: Vec<usize> = ctx.tier.pick(vec![15, 16, 17, 18, 31, 32, 33, 34, 64, 65], vec![15, 16, 17, 18, 19, 31, 32, 33, 34, 47, 48, 49, 63, 64, 65, 96, 127, 128, 129, 256, 257]);
+        let rad = [lens.len() as u64, 3];
+        ctx.sweep(
+            "pair_lists.long",
+            crate::infra::space(&rad),
+            |i| {
+                let d = unrank(i, &rad);
+                json!({"len": lens[d[0]], "pattern": (["cyclic non-identity pairs", "cancelling: ([a]g1,[b]g2) and (-[a]g1,[b]g2) alternate", "cyclic with an identity pair in the middle"][d[1]])})
+            },
+            |i| {
+                let d = unrank(i, &rad);
+                let len = lens[d[0]];
+                let idx: Vec<usize> = (0..len)
+                    .map(|t| match d[1] {
+                        0 => t % 3,
+                        1 => 1 + (t % 2),
+                        _ => {
+                            if t == len / 2 {
+                                3 + (t % 2)
+                            } else {
+                                t % 3
+                            }
+                        }
+                    })
+                    .collect();
+                let mut esum = BigUint::zero();
+                for &k in &idx {
+                    esum = (esum + &contrib[k]) % r();
+                }
+                let want = gt.pow(&esum);
+                let refs: Vec<(&G1Prepared, &G2Prepared)> = idx.iter().map(|&k| (&prep[k].0, &prep[k].1)).collect();
+                let ml = guard(|| Bls12::miller_loop(refs.iter())).map_err(|m| Fail::new(format!("miller_loop panicked: {}", m)))?;
+                let fe = Bls12::final_exponentiation(&ml).ok_or_else(|| Fail::new("final_exponentiation failed"))?;
+                if q12_of(&fe) != want {
+                    return Err(Fail::new(format!("Miller loop over {} pairs + final exponentiation != product of the pairings", len)));
+                }
+                let ps: Vec<G1Affine> = idx.iter().map(|&k| pts[k].0).collect();
+                let qs: Vec<G2Affine> = idx.iter().map(|&k| pts[k].1).collect();
+                let mp = guard(|| Bls12::pairing_multi_product(&ps, &qs)).map_err(|m| Fail::new(format!("pairing_multi_product panicked: {}", m)))?;
+                if q12_of(&mp) != want {
+                    return Err(Fail::new(format!("pairing_multi_product over {} pairs != product of the pairings", len)));
+                }
+                Ok(if d[1] == 1 && len % 2 == 0 { "long cancelling list" } else { "long list" })
+            },
+        );
+    }
     // prepared elements are unchanged by use: the first evaluation is reproduced bit for bit at the end
     ctx.sweep("prepared_reuse", 1, |_| json!({"check": "first Miller loop re-evaluated after all other uses"}), |_| {
         let again = Bls12::miller_loop([(&prep[1].0, &prep[1].1), (&prep[0].0, &prep[0].1)].iter());
@@ -238,6 +322,6 @@ pub fn run_c11(ctx: &Ctx) -> (&'static str, &'static str) {
     ctx.assume("expected values E^(sum a_i b_i mod r) with E the reference e(g1,g2) (C03 ties the single pairing to the textbook evaluation)");
     (
         "exploration",
-        "ALL lists of length 0..4 (quick) / 0..6 (thorough) over the pair alphabet {(g1,g2), ([a]g1,[b]g2), (-[a]g1,[b]g2), (O,g2), (g1,O)} - which contains cancelling combinations and identities at every position - through final_exponentiation(miller_loop(list)), pairing_product (length 2) and pairing_multi_product against e(g1,g2)^(sum a_i b_i); lists of length 8 and 9 with an identity pair at each position; the same prepared elements are reused by every list and the first Miller loop is reproduced bit for bit at the end; non-trivial = non-empty list",
+        "ALL lists of length 0..4 (quick) / 0..6 (thorough) over the pair alphabet {(g1,g2), ([a]g1,[b]g2), (-[a]g1,[b]g2), (O,g2), (g1,O)} - which contains cancelling combinations and identities at every position - through final_exponentiation(miller_loop(list)), pairing_product (length 2) and pairing_multi_product against e(g1,g2)^(sum a_i b_i); lists of length 8 and 9 with an identity pair at each position; long lists (15..18, 31..34, 64, 65; thorough up to 257) in generic, cancelling and identity-in-the-middle patterns through the Miller loop and pairing_multi_product; the same prepared elements are reused by every list and the first Miller loop is reproduced bit for bit at the end; non-trivial = non-empty list",
     )
 }
